@@ -70,7 +70,7 @@ class Abort(BaseException):
 
 
 class TState:
-    __slots__ = ('name', 'sem', 'pred', 'deadline', 'timed_out', 'done', 'tid', 'thread', 'why')
+    __slots__ = ('name', 'sem', 'pred', 'deadline', 'timed_out', 'done', 'tid', 'thread', 'why', 'timed_wait')
 
     def __init__(self, name, tid):
         self.name = name
@@ -83,6 +83,7 @@ class TState:
         self.done = False
         self.thread = None
         self.why = ''
+        self.timed_wait = 0.0   # virtual time this thread has spent blocked in TIMED waits
 
 
 class Scheduler:
@@ -104,6 +105,7 @@ class Scheduler:
         self.switches = 0      # context switches actually taken
         self.early_fires = 0
         self.leaked_at_main_exit = []
+        self.early_horizon = 100.0
 
     # -- registration -----------------------------------------------------
     def register_current(self, name):
@@ -149,19 +151,32 @@ class Scheduler:
                 continue
             en = self._enabled()
             early = getattr(self.chooser, 'early', None)
-            if en and early is not None and early(self):
-                en = []
-                self.early_fires += 1
-                self.trace.append(-1)
+            timed = None
+            if en and early is not None:
+                # only timers within the horizon may fire early ("racy" timers: request
+                # deadlines, batching waits; never the harness's own long sleeps)
+                near = [ts for ts in self.order if not ts.done and ts.deadline is not None
+                        and ts.deadline - self.now <= self.early_horizon]
+                if near and early(self):
+                    en = []
+                    timed = near
+                    self.early_fires += 1
+                    self.trace.append(-1)
             if not en:
                 # advance virtual time to the earliest deadline
-                timed = [ts for ts in self.order if not ts.done and ts.deadline is not None]
+                if timed is None:
+                    timed = [ts for ts in self.order if not ts.done and ts.deadline is not None]
                 if not timed:
                     self.deadlock_info = [(ts.name, ts.why) for ts in self.order if not ts.done]
                     self.aborting = True
                     continue
                 dl = min(ts.deadline for ts in timed)
+                delta = max(self.now, dl) - self.now
                 self.now = max(self.now, dl)
+                if delta > 0:
+                    for ts in self.order:
+                        if not ts.done and ts.deadline is not None:
+                            ts.timed_wait += delta
                 for ts in timed:
                     if ts.deadline <= self.now:
                         ts.timed_out = True
@@ -354,6 +369,15 @@ class RLock:
         return self._owner is (SCHED.me() or 'unmanaged')
 
 
+class _Token:
+    """one per waiter; compared by identity (a list `[False]` would compare equal to every
+    other waiter's token and `deque.remove` would take the wrong one)"""
+    __slots__ = ('flag',)
+
+    def __init__(self):
+        self.flag = False
+
+
 class Condition:
     def __init__(self, lock=None):
         if lock is None:
@@ -377,17 +401,17 @@ class Condition:
     def wait(self, timeout=None):
         if not self._is_owned():
             raise RuntimeError('cannot wait on un-acquired lock')
-        token = [False]
+        token = _Token()
         self._waiters.append(token)
         if isinstance(self._lock, RLock):
             st = self._lock._release_save()
         else:
             self._lock._owner = None
             st = None
-        got = SCHED.wait_until(lambda: token[0], timeout, 'cond.wait')
+        got = SCHED.wait_until(lambda: token.flag, timeout, 'cond.wait')
         if not got:
             try:
-                self._waiters.remove(token)
+                self._waiters.remove(token)     # identity comparison (see _Token)
             except ValueError:
                 pass
         if isinstance(self._lock, RLock):
@@ -419,7 +443,7 @@ class Condition:
         for _ in range(n):
             if not self._waiters:
                 break
-            self._waiters.popleft()[0] = True
+            self._waiters.popleft().flag = True
 
     def notify_all(self):
         self.notify(len(self._waiters))
@@ -592,7 +616,7 @@ def install():
 # lets it fire the earliest pending timer although some thread is enabled.
 
 def _has_timer(s):
-    return any((not ts.done) and ts.deadline is not None for ts in s.order)
+    return True   # the scheduler only asks when a timer within its horizon exists
 
 
 def random_chooser(seed, early_p=0.0):
@@ -701,6 +725,13 @@ class InfraHang(Exception):
 def run(fn, chooser, max_steps=200000, real_timeout=60.0):
     """Run fn() as managed 'main' under the scheduler; returns (result, exc, sched)."""
     global SCHED
+    # Cyclic garbage collection runs finalizers (which may touch patched primitives, i.e. add
+    # scheduling points) at allocation-count-dependent moments: switch it off during a run and
+    # collect at a fixed point, so that a (case, seed) pair determines the schedule exactly.
+    import gc
+    gc.collect()
+    gc_was = gc.isenabled()
+    gc.disable()
     s = Scheduler(chooser, max_steps)
     SCHED = s
     out = {}
@@ -727,12 +758,16 @@ def run(fn, chooser, max_steps=200000, real_timeout=60.0):
     _real_start(t)
     if not done.acquire(True, real_timeout):
         SCHED = NULL
+        if gc_was:
+            gc.enable()
         raise InfraHang(f'scheduler did not return within {real_timeout}s (steps={s.steps})')
     # wait for stragglers to unwind
     for ts in s.order:
         if ts.thread is not None:
             _real_join(ts.thread, 5)
     SCHED = NULL
+    if gc_was:
+        gc.enable()
     return out.get('v'), out.get('e'), s
 
 
@@ -747,3 +782,10 @@ def emit(*ev):
 
 def now():
     return SCHED.now
+
+
+def my_timed_wait():
+    """virtual time the calling thread has spent blocked in timed waits (scheduling delays of
+    a runnable thread, and untimed lock waits, are not counted)"""
+    me = SCHED.me()
+    return me.timed_wait if me is not None else 0.0
